@@ -13,7 +13,9 @@ FIRST_TRY = {'C01': True, 'C02': True, 'C03': False, 'C04': True, 'C05': False, 
              'C02b': True, 'C08b': True, 'C11b': False, 'C12b': True, 'C14b': True, 'C15b': True, 'C17b': True, 'C18b': True,
              'C01c': True, 'C02c': True, 'C03c': True, 'C04c': True, 'C05c': True, 'C06c': False, 'C07c': True, 'C08c': True,
              'C09c': True, 'C10c': False, 'C11c': True, 'C12c': True, 'C14c': True, 'C15c': True, 'C16c': False, 'C17c': True,
-             'C18c': True, 'C19c': False, 'C20c': False, 'C13d': False}
+             'C18c': True, 'C19c': False, 'C20c': False, 'C13d': False,
+             'C01e': True, 'C02e': False, 'C03e': False, 'C04e': False, 'C05e': False, 'C06e': True, 'C07e': True, 'C08e': True, 'C09e': False,
+             'C10e': False}
 REJECTED = {
     'C13c': 'not confirmed: the change only matters when dataReceived() is called again after the agent\'s own '
             'transport.loseConnection(); Twisted\'s TCP transport stops reading at that point (FileDescriptor.loseConnection -> '
@@ -34,6 +36,12 @@ STRENGTHEN = {
     'C06c': 'the change is in the REST layer (LOCAL_PREF 0 replaced by the iBGP default); C06 got a REST facet (the generated cases requested through POST /send/update on eBGP/iBGP sessions in both AS modes, decoded from the wire, plus a grid session kind x LOCAL_PREF x MED boundary values) and C16 got the same grid and a 2-octet-AS session dimension; both now catch it',
     'C10c': 'the negotiated hold time became a dimension of the hostile-input cases ({180, 90, 3, 0}); before, every session ran with hold time 180, so a malformed UPDATE re-arming a stopped hold timer was never seen',
     'C13d': 'operator commands may now come before the agent\'s first automatic start (the start-up delay): C13 has a "preboot" stop whose continuation begins with the boot event, C12 walks / BFS prefixes may start with start / stop before boot',
+    'C02e': 'timer configurations with idle_hold_time 0 (and a 3/2/1 s one) were added; before, every configuration had a positive idle hold time',
+    'C03e': 'arrivals now include body-malformed UPDATEs (tolerated by the agent, C10) next to KEEPALIVEs and well-formed UPDATEs of every family',
+    'C04e': 'frames of a known type whose length violates the per-type rule of RFC 4271 6.1 (OPEN < 29, NOTIFICATION < 21, KEEPALIVE != 19) are now violations in the stream generator and the header grid (this also exposed two genuine defects, F054/F055); same change as C18c, which C18 caught at once',
+    'C05e': 'the peer BGP identifier became a per-session dimension (a peer coming back with another router-id)',
+    'C09e': 'caught by C05, whose subject it is (AS-number width of a session follows the capabilities both sides advertised); C09 checks the codec and is not affected by a session-layer change',
+    'C10e': 'caught by C02 and C05 from the start (the next OPEN differs from a fresh one); C10 itself now has an earlier session with a one-capability peer OPEN that the agent ends, and an absolute oracle for the good messages (a well-formed UPDATE in the session\'s AS mode is reported as exactly that), not only the comparison with the control run',
     'C16c': 'send cases now run with [bgp] rib on or off and with 0-2 earlier announcements on the same session whose prefixes the checked request may withdraw or re-announce (a withdraw list mixing announced and never-announced prefixes is the trigger)',
     'C19c': 'new operation: one peer UPDATE that carries IPv4 withdrawn routes together with a flowspec / VPNv4 MP_REACH or MP_UNREACH attribute; both parts must be applied (patch rebased onto the current tree because a later fix touched the same lines; original kept as patch.orig.diff)',
     'C20c': 'the peer address as configured became a dimension (IPv4, lower-case IPv6, upper-case IPv6) and a handler callback that raises is now a violation (event not logged) instead of a harness error',
